@@ -885,7 +885,10 @@ fn s6_mixed_stress(seed: u64, budget: Duration) -> W {
     while started.elapsed() < budget {
         let dir = tmp();
         let root = dir.path();
-        let keys: Vec<u64> = (0..5).map(|j| 20000 + 100 * seed + 3 * j + 1).collect(); // scale 150
+        // k % 3 == 1 (chunks of at most 150 bytes) for EVERY seed: with 100 * seed the residue used to vary, and for k % 3 == 2 single
+        // items exceed the capacity of 2500 bytes, which C13's proviso excludes (concurrent puts of such items do leave an untracked
+        // file on HEAD: counters 1 item, directory 2 files - observed with seed 2, not judged)
+        let keys: Vec<u64> = (0..5).map(|j| { let b = 20000 + 100 * seed + 3 * j; b - b % 3 + 1 }).collect();
         let capacity = 2500u64;
         let ctx = format!("S6 seed {seed} round {round}: {THREADS} threads, random put/get of ranges {RANGES:?} of 5 keys, capacity {capacity}");
         let cache = open_clean(root, capacity, &ctx)?;
